@@ -13,6 +13,7 @@
  * Each mutant sits in an exact-size heap block. Oracle: no sanitizer report, abort, signal or hang. */
 #define C06_LIB 1
 #include "c06a.c"
+static uint8_t C06C_NAME[128]; static size_t C06C_NAMELEN;   /* the subject looked for by x509_cert_from_pem_by_subject */
 #include "c06c_table.h"
 #include <gmssl/x509_ext.h>
 
@@ -82,6 +83,33 @@ static void run_input(const c06c_fn *f, const inp_t *in) { static uint8_t m[2000
 	size_t h = n < (size_t)HEAD ? n : (size_t)HEAD;
 	for (size_t off = 0; off <= h; off++) { size_t o = off < h ? off : (n ? n - 1 : 0); if (off == h && (n <= h)) break; uint8_t v0 = in->d[o]; uint8_t S[6] = { 0x00, 0x7f, 0x80, 0xff, (uint8_t)(v0 ^ 1), (uint8_t)(v0 ^ 0x20) }; for (int k = 0; k < 6; k++) { if (S[k] == v0) continue; memcpy(m, in->d, n); m[o] = S[k]; one(f, m, n); } }
 	for (size_t k = 0; k < h; k++) one(f, in->d, k); if (n > h + 1) one(f, in->d, n - 1); if (n > h + 2) one(f, in->d, n - 2); }
+/* ---------- PEM readers: every *_from_pem of the headers x (every DER seed under every label the library reads) x text-level deviations ---------- */
+static inp_t *PPOOL; static int NPP, CAPPP;
+static void ppool_add(const char *t, size_t n) { if (n > 60000) return; if (NPP == CAPPP) { CAPPP = CAPPP ? CAPPP * 2 : 1024; PPOOL = (inp_t *)realloc(PPOOL, CAPPP * sizeof *PPOOL); } PPOOL[NPP].d = (uint8_t *)malloc(n ? n : 1); memcpy(PPOOL[NPP].d, t, n); PPOOL[NPP].n = n; NPP++; }
+static char *pem_text(const char *label, const uint8_t *der, size_t n, size_t *tl) { char *t = NULL; FILE *f = open_memstream(&t, tl); pem_write(f, label, der, n); fclose(f); return t; }
+static void build_ppool(void) {
+	static const char *LAB[] = { "CERTIFICATE", "CERTIFICATE REQUEST", "X509 CRL", "CMS", "PUBLIC KEY", "PRIVATE KEY", "EC PRIVATE KEY", "ENCRYPTED PRIVATE KEY", "ENCRYPTED SM9 SIGN MASTER KEY", "SM9 SIGN MASTER PUBLIC KEY", "ENCRYPTED SM9 SIGN PRIVATE KEY", "ENCRYPTED SM9 ENC MASTER KEY", "SM9 ENC MASTER PUBLIC KEY", "ENCRYPTED SM9 ENC PRIVATE KEY" };
+	for (int i = 0; i < NSEEDS; i++) { if (!SEEDS[i].der || SEEDS[i].n > 1700) continue; for (int l = 0; l < 14; l++) { size_t tl; char *t = pem_text(LAB[l], SEEDS[i].d, SEEDS[i].n, &tl); ppool_add(t, tl); free(t); } }
+	/* several objects in one file: lists that outgrow the caller's buffer */
+	for (int cnt = 2; cnt <= 12; cnt += (cnt < 4 ? 1 : 4)) { char *t = NULL; size_t tl = 0; FILE *f = open_memstream(&t, &tl); for (int k = 0; k < cnt; k++) pem_write(f, "CERTIFICATE", ROOTC, ROOTL); fclose(f); ppool_add(t, tl); free(t); }
+	{ char *t = NULL; size_t tl = 0; FILE *f = open_memstream(&t, &tl); for (int i = 0; i < NSEEDS; i++) if (SEEDS[i].der && SEEDS[i].c == c_cert && SEEDS[i].n < 1700) pem_write(f, "CERTIFICATE", SEEDS[i].d, SEEDS[i].n); fclose(f); ppool_add(t, tl); free(t); } }
+static void run_pem(const c06c_fn *f, const inp_t *in) { static char m[70000]; const char *t = (const char *)in->d; size_t n = in->n; one(f, in->d, n);
+	const char *h_end = memchr(t, '\n', n); const char *foot = NULL; for (size_t i = n; i >= 5; i--) if (!memcmp(t + i - 5, "-----", 5) && i >= 10) { /* last line start */ size_t j = i - 5; while (j > 0 && t[j - 1] != '\n') j--; foot = t + j; break; } if (!h_end || !foot || foot <= h_end) return; size_t hl = (size_t)(h_end - t) + 1, bl = (size_t)(foot - t) - hl, fl = n - hl - bl; const char *body = t + hl;
+#define EMIT(len) one(f, (const uint8_t *)m, (len))
+	/* footer / header dropped, labels altered */ memcpy(m, t, hl + bl); EMIT(hl + bl); memcpy(m, body, bl + fl); EMIT(bl + fl); memcpy(m, t, n); m[hl + bl + 9] ^= 0x01; EMIT(n); memcpy(m, t, n); m[11] ^= 0x01; EMIT(n); memcpy(m, t, n); m[2] = '+'; EMIT(n);
+	/* body on ONE long line; CRLF; blank lines; leading blanks */ { size_t k = hl; memcpy(m, t, hl); for (size_t i = 0; i < bl; i++) if (body[i] != '\n') m[k++] = body[i]; m[k++] = '\n'; memcpy(m + k, foot, fl); EMIT(k + fl); }
+	{ size_t k = 0; for (size_t i = 0; i < n && k + 2 < sizeof m; i++) { if (t[i] == '\n') m[k++] = '\r'; m[k++] = t[i]; } EMIT(k); } { size_t k = 0; for (size_t i = 0; i < n && k + 2 < sizeof m; i++) { m[k++] = t[i]; if (t[i] == '\n') m[k++] = '\n'; } EMIT(k); } { size_t k = 0; for (size_t i = 0; i < n && k + 2 < sizeof m; i++) { if (i == 0 || t[i - 1] == '\n') m[k++] = ' '; m[k++] = t[i]; } EMIT(k); }
+	/* one foreign character inside the body: first, middle, last position x { '*', ' ', '=', NUL, 0xff, '-' } */ { static const char FC[] = { '*', ' ', '=', 0, (char)0xff, '-' }; size_t P[3] = { hl, hl + bl / 2, hl + bl - 2 }; for (int p = 0; p < 3; p++) for (int c = 0; c < 6; c++) { if (P[p] >= n) continue; memcpy(m, t, n); m[P[p]] = FC[c]; EMIT(n); } }
+	/* padding: removed, doubled */ { memcpy(m, t, n); size_t e = hl + bl; size_t q = e; while (q > hl && (m[q - 1] == '\n' || m[q - 1] == '=')) q--; if (q < e) { size_t k = q; m[k++] = '\n'; memcpy(m + k, foot, fl); EMIT(k + fl); k = q; m[k++] = '='; m[k++] = '='; m[k++] = '='; m[k++] = '='; m[k++] = '\n'; memcpy(m + k, foot, fl); EMIT(k + fl); } }
+	/* empty body; garbage around; truncations */ memcpy(m, t, hl); memcpy(m + hl, foot, fl); EMIT(hl + fl); { size_t k = (size_t)snprintf(m, sizeof m, "garbage line\n-----BEGIN\n"); memcpy(m + k, t, n); k += n; k += (size_t)snprintf(m + k, sizeof m - k, "trailing garbage without newline"); EMIT(k); }
+	{ size_t C[8] = { 0, 5, hl - 1, hl, hl + 1, hl + bl / 2, hl + bl, n - 1 }; for (int c = 0; c < 8; c++) if (C[c] <= n) one(f, in->d, C[c]); }
+	/* a body line of 10000 characters */ { size_t k = hl; memcpy(m, t, hl); for (int r = 0; r < 10000 && k + 2 < sizeof m; r++) m[k++] = body[r % (bl ? bl : 1)] == '\n' ? 'A' : body[r % (bl ? bl : 1)]; m[k++] = '\n'; memcpy(m + k, foot, fl); EMIT(k + fl); }
+#undef EMIT
+}
+static void body_pem(void) {
+	for (int fi = 0; fi < C06C_NPEMFN; fi++) { char bn[96]; snprintf(bn, sizeof bn, "pem-%s", C06C_PEMFN[fi].name); if (!vh_block_begin(bn)) continue; if (vh_deadline_hit()) { vh_capped = 1; continue; }
+		for (int i = 0; i < NPP; i++) { if (!vh_next()) continue; if (vh_deadline_hit()) { vh_capped = 1; break; } run_pem(&C06C_PEMFN[fi], &PPOOL[i]); }
+		vh_sample("{\"pem_reader\":\"%s\",\"texts\":%d}", C06C_PEMFN[fi].name, NPP); } }
 static void body_c(void) {
 	for (int fi = 0; fi < C06C_NFN; fi++) { char bn[96]; snprintf(bn, sizeof bn, "fn-%s", C06C_FN[fi].name); if (!vh_block_begin(bn)) continue; if (vh_deadline_hit()) { vh_capped = 1; continue; }
 		for (int i = 0; i < NPOOL; i++) { if (!vh_next()) continue; if (vh_deadline_hit()) { vh_capped = 1; break; } run_input(&C06C_FN[fi], &POOL[i]); }
@@ -91,4 +119,5 @@ int main(int argc, char **argv) { vh_init(argc, argv); NUL = fopen("/dev/null", 
 	for (int i = 0; i < NSEEDS; i++) { if (SEEDS[i].der) pool_der(SEEDS[i].d, SEEDS[i].n); else if (SEEDS[i].c == c_tlsrec) pool_tls(SEEDS[i].d, SEEDS[i].n); else pool_add(SEEDS[i].d, SEEDS[i].n); } tls_inputs();
 	if (getenv("C06C_LIST")) for (int i = 0; i < NSEEDS; i++) fprintf(stderr, "seed %s %zu bytes\n", SEEDS[i].name, SEEDS[i].n);
 	vh_obs("pool: %d distinct inputs from %d seeds, %d TLS 1.3 plaintexts; %d functions", NPOOL, NSEEDS, NGLOG, C06C_NFN);
-	if (!freopen("/dev/null", "w", stderr)) {} vh_guarded("C06", body_c, 20); return vh_finish(); }
+	make_name(C06C_NAME, &C06C_NAMELEN, "R"); build_ppool(); vh_obs("PEM pool: %d texts; %d PEM readers", NPP, C06C_NPEMFN);
+	if (!freopen("/dev/null", "w", stderr)) {} vh_guarded("C06", body_c, 20); vh_guarded("C06", body_pem, 20); return vh_finish(); }
